@@ -8,46 +8,46 @@ Context {D : Type}.
 
 Theorem C06_pull_only_data : forall toks t r,
   next_optional_token toks = (Got t, r) -> is_data t = true.
-Proof. exact pull_only_data. Qed.
+Proof. apply pull_only_data. Qed.
 
 Theorem C06_pull_req_only_data : forall toks t r,
   next_token toks = (Got t, r) -> is_data t = true.
-Proof. exact pull_req_only_data. Qed.
+Proof. apply pull_req_only_data. Qed.
 
 Theorem C06_pull_consumes_only_data : forall toks r toks',
   next_optional_token toks = (r, toks') ->
   exists used, toks = used ++ toks' /\ Forall data_or_sep used.
-Proof. exact pull_consumes_only_data. Qed.
+Proof. apply pull_consumes_only_data. Qed.
 
 Theorem C06_pull_req_consumes_only_data : forall toks r toks',
   next_token toks = (r, toks') ->
   exists used, toks = used ++ toks' /\ Forall data_or_sep used.
-Proof. exact pull_req_consumes_only_data. Qed.
+Proof. apply pull_req_consumes_only_data. Qed.
 
 Theorem C06_pull_first_datum : forall d rest, is_data d = true ->
   next_optional_token (IOk d :: rest) = (Got d, rest) /\ next_token (IOk d :: rest) = (Got d, rest).
-Proof. exact pull_first_datum. Qed.
+Proof. apply pull_first_datum. Qed.
 
 Theorem C06_pull_next_datum : forall d rest, is_data d = true ->
   next_optional_token (IOk TDataSeparator :: IOk d :: rest) = (Got d, rest) /\
   next_token (IOk TDataSeparator :: IOk d :: rest) = (Got d, rest).
-Proof. exact pull_next_datum. Qed.
+Proof. apply pull_next_datum. Qed.
 
 Theorem C06_pull_at_unit_end : forall toks, (toks = [] \/ exists r, toks = IOk TUnitSeparator :: r) ->
   next_optional_token toks = (Absent, toks) /\
   next_token toks = (Failed (std_error MissingParameter), toks).
-Proof. exact pull_at_unit_end. Qed.
+Proof. apply pull_at_unit_end. Qed.
 
 Theorem C06_handler_stays_in_unit : forall (p : hprog D) toks f u toks' d f' r,
   run_prog p toks f u = (toks', d, f', r) ->
   exists used, toks = used ++ toks' /\ Forall data_or_sep used.
-Proof. exact handler_stays_in_unit. Qed.
+Proof. apply handler_stays_in_unit. Qed.
 
 Theorem C06_leftover_is_108 : forall fu (root leaf : tree D) s leaf' s' tok rest,
   unit_body root leaf s = UExec (XOk leaf' s') -> x_toks s' = IOk tok :: rest ->
   (is_data tok = true \/ tok = TDataSeparator) ->
   unit_loop (S fu) root leaf s = Val (with_toks s' rest, Some (std_error ParameterNotAllowed)).
-Proof. exact leftover_is_108. Qed.
+Proof. apply leftover_is_108. Qed.
 
 End C06_statements.
 
